@@ -8,10 +8,13 @@ ASSUMPTIONS = [
     "theorems: class tables without do_not_copy=True classes and without plain subclasses; callbacks and default factories embed no heap references; history theorem (class-level defaults isolated) for the alphabet hist_op_ok of coq/Inst/SepProofs.v",
     "oracles (on the implementation's canonical object graphs): a new instance shares nothing with anything that existed before (class defaults, constructor arguments, peers) except through do_not_copy attributes; class-level default objects are never reachable from any other root; `same` assertions: the attribute after reset_<a> / reset / del (in place or on a copy) equals the attribute of a freshly constructed instance of the same class",
     "the reset histories also report oracle bit 4 (a copy produced by reset_<a>() / reset() shares a mutable object with the instance it was made from): two instances sharing state is a violation of 'nor any other instance'",
-    "every way of declaring a default that the class grammar of inst_common renders: literal, mutable literal, Attr(default=), Attr(default_factory=), dataclasses.field(default=/default_factory=), override (int and mutable list/dict) in a spec subclass; overrides in PLAIN subclasses are not rendered by inst_common (c_overrides / c_owner are fixed by its printer) and are exercised on the implementation only (plain_subclass_probe)",
+    "every way of declaring a default that the class grammar of inst_common renders: literal, mutable literal, Attr(default=), Attr(default_factory=), dataclasses.field(default=/default_factory=), override (int and mutable list/dict) in a spec subclass, override in a plain subclass (K4..K7 of the plain-constructor histories; also plain_subclass_probe on the implementation only)",
+    "plain (undecorated) subclasses as constructed classes: K4 plain over K2, K5 plain over K4, K6 plain over the spec subclass K3, K7 plain over K6 - correspondence and oracles through the model (c_owner / c_overrides), the theorems keep the own_metadata guard; KeyedList / KeyedSet arguments and a spec class above a plain one only in the implementation-level probe harness/c08_probe.py (oracle: the property statement on object identities)",
 ]
 GENS = [
-    (1, dict(bad_rate=0.1, inplace_rate=0.5, fail_rate=0.0)),
+    (2, dict(bad_rate=0.1, inplace_rate=0.5, fail_rate=0.0)),
+    # K4 = plain (undecorated) subclass of K2, constructed WITH keyword arguments (seeded change C08-E1)
+    (1, dict(bad_rate=0.1, inplace_rate=0.5, fail_rate=0.0, flavour="plain")),
 ]
 
 
@@ -98,6 +101,25 @@ def dnc_family_ctor_probe(chk, extra):
     extra["dnc_family_ctor_probe"] = {"cases": n, "failing": bad}
 
 
+def plain_ctor_probe(chk, extra):
+    """implementation-only (harness/c08_probe.py): constructors of plain subclasses (one and two levels,
+    below a spec class, a spec subclass and a spec class that itself sits above a plain one; lazy and
+    eager; with and without overrides) called with list / dict / set / nested / List-, Dict-, KeyedList-,
+    KeyedSet-of-spec arguments; two peers from the same argument; nothing mutable reachable from two of
+    {argument, peer A, peer B, class defaults} unless do_not_copy; in-place mutation through each holder"""
+    import c08_probe
+    r = c08_probe.run()
+    seen = set()
+    for f in r["failures"]:
+        k = (f["class"], f["what"].split("(")[0])
+        if k in seen or len(seen) >= 3:
+            continue
+        seen.add(k)
+        chk.violation("C08 violated by the implementation: %s(%s=<argument>) twice from the same argument: %s"
+                      % (f["class"], f["attr"], f["what"]), dict(f, kind="plain-ctor"), sig={"kind": "plain-ctor"})
+    extra["plain_ctor_probe"] = {"cases": r["cases"], "failing": len(r["failures"])}
+
+
 def targeted(chk, cases, bad, extra):
     n = 220 if chk.tier == "quick" else 4500
     n_ops = 6 if chk.tier == "quick" else 9
@@ -105,9 +127,19 @@ def targeted(chk, cases, bad, extra):
     c02_gen.report(chk, "C08", 32 | 128 | 4, mine, extra, "reset_histories", sig_fn=c08_gen.same_signature)
     same = sum(1 for c in mine for op, _ in c["ops"] if op[0] == "same")
     extra["reset_histories"]["same_assertions"] = same
+    n_pc = 60 if chk.tier == "quick" else 1500
+    pc = [c08_gen.gen_case_plain_ctor(chk.rng, 4 if chk.tier == "quick" else 7) for _ in range(n_pc)]
+    c02_gen.report(chk, "C08", 32 | 4, pc, extra, "plain_ctor_histories")
+    hist = {}
+    for c in pc:
+        for op, _ in c["ops"]:
+            if op[0] == "construct" and op[1] >= 4:
+                hist["K%d" % op[1]] = hist.get("K%d" % op[1], 0) + 1
+    extra["plain_ctor_histories"]["constructed_plain_classes"] = hist
     plain_subclass_probe(chk, extra)
     dnc_family_ctor_probe(chk, extra)
-    extra["rule"] = extra.get("rule", "") + "; reset histories = construct, in-place mutation, del / reset_<a> / reset (in place or copy), fresh instance of the same class, `same` assertion per reset attribute"
+    plain_ctor_probe(chk, extra)
+    extra["rule"] = extra.get("rule", "") + "; plain-constructor histories = peers of plain / spec classes built from the same mutable argument objects, in-place mutation through every holder, del / reset, further peers; reset histories = construct, in-place mutation, del / reset_<a> / reset (in place or copy), fresh instance of the same class, `same` assertion per reset attribute"
 
 
 def main(tier, replay=None):
@@ -115,7 +147,8 @@ def main(tier, replay=None):
         import json
         r = json.load(open(replay))
         probes = {"plain-subclass": (plain_subclass_probe, "plain_subclass_probe"),
-                  "dnc-family-ctor": (dnc_family_ctor_probe, "dnc_family_ctor_probe")}
+                  "dnc-family-ctor": (dnc_family_ctor_probe, "dnc_family_ctor_probe"),
+                  "plain-ctor": (plain_ctor_probe, "plain_ctor_probe")}
         if r.get("kind") in probes:
             from common import Check
             fn, key = probes[r["kind"]]
